@@ -331,7 +331,7 @@ Lemma BInv_append_attempt s c :
   BInv (s <| attempts ::= fun l => l ++ [c] |>).
 Proof.
   intros [I A] Hc Hj. set (s1 := s <| attempts ::= fun l => l ++ [c] |>). split.
-  - destruct I. constructor; try assumption; try exact si_g0.
+  - destruct I. constructor; try assumption; try (apply (GInv_view s); [reflexivity | reflexivity | reflexivity | exact si_g0]).
     intros x Hx. change (attempts s1) with (attempts s ++ [c]) in Hx. apply in_app_or in Hx.
     destruct Hx as [Hx | [<- | []]]; [apply si_att0, Hx | apply find_job_some_iff, Hj].
   - destruct A. constructor.
@@ -363,7 +363,7 @@ Proof.
   - destruct rq as [r q]. unfold add_one_resource. destruct (existsb _ (attempt_res s)); [exact I|]. cbv zeta.
     set (s1 := s <| attempt_res ::= fun m => m ++ [([b; j; a; r], [q])] |>).
     assert (I1 : SInv s1).
-    { destruct I. constructor; try assumption; try exact si_g0.
+    { destruct I. constructor; try assumption; try (apply (GInv_view s); [reflexivity | reflexivity | reflexivity | exact si_g0]).
       intros b' j' a' r' q' Hin. change (attempt_res s1) with (attempt_res s ++ [([b; j; a; r], [q])]) in Hin.
       apply in_app_or in Hin. destruct Hin as [Hin | [E | []]]; [eapply si_res0, Hin|].
       injection E as <- <- _ _ _. apply find_job_some_iff, Hj. }
@@ -392,24 +392,31 @@ Proof.
 Qed.
 
 (** new group rows / batch rows / ancestor rows are appended; jobs, attempts, resources and tables stay *)
-Lemma BInv_grow s s' gx bx :
+Lemma BInv_grow s s' gx bx ext :
   BInv s ->
   kgl s' = kgl s -> attempts s' = attempts s -> attempt_res s' = attempt_res s ->
   agg_job s' = agg_job s -> agg_group s' = agg_group s -> agg_bp s' = agg_bp s -> agg_date s' = agg_date s ->
-  gkl s' = gkl s ++ gx -> bkl s' = bkl s ++ bx ->
-  (forall b u p, In (b, u, p) (bkl s ++ bx) -> b < next_batch s') ->
-  (forall b g, In (b, g) (gkl s) -> blook (bkl s) b <> None -> anc_ids s' b g = anc_ids s b g) ->
+  gkl s' = gkl s ++ gx -> bkl s' = bkl s ++ bx -> ancestors s' = ancestors s ++ ext ->
+  next_batch s <= next_batch s' ->
+  (forall b u p, In (b, u, p) bx -> b < next_batch s') ->
+  (forall b g, In (b, g) gx -> ~ In (b, g) (gkl s) /\ b < next_batch s') ->
+  (forall b g a x, In (b, g, a, x) ext -> In (b, g) gx /\ a <= g) ->
+  (forall b g, In (b, g) gx -> NoDup (aids ext b g)) ->
   BInv s'.
 Proof.
-  intros [I A] Hk Hat Hr Aj Ag Ab Ad Hg Hb Hfresh Hanc.
+  intros [I A] Hk Hat Hr Aj Ag Ab Ad Hg Hb Ha Hn Hbx Hgx Hext Hnd.
+  pose proof (si_g s I) as G.
+  assert (Hsplit : forall b g, anc_ids s' b g = anc_ids s b g ++ aids ext b g).
+  { intros b g. rewrite !anc_ids_aids, Ha, aids_app. reflexivity. }
+  assert (Hanc : forall b g, In (b, g) (gkl s) -> anc_ids s' b g = anc_ids s b g).
+  { intros b g Hin. rewrite Hsplit, aids_none, app_nil_r; [reflexivity|].
+    intros b' g' a x Hx [-> ->]. destruct (Hext _ _ _ _ Hx) as [Hx' _]. destruct (Hgx _ _ Hx') as [Hno _]. contradiction. }
   assert (Hrow : forall b j a r q, In ([b; j; a; r], [q]) (attempt_res s) ->
                    kf_group s' b j r = kf_group s b j r /\ kf_bp s' b j r = kf_bp s b j r).
   { intros b j a r q Hin. pose proof (si_res s I _ _ _ _ _ Hin) as Hj.
     destruct (jlook (kgl s) b j) as [g|] eqn:Eg; [|contradiction].
-    apply jlook_in in Eg. destruct (si_refs s I _ _ _ Eg) as [Hgk Hbk]. split.
-    - unfold kf_group. rewrite !jgroup_kgl, Hk. apply jlook_in in Eg || idtac.
-      destruct (jlook (kgl s) b j) as [g1|] eqn:E1; [|exfalso; eapply in_jlook; eassumption].
-      apply jlook_in in E1. rewrite (si_kg s I _ _ _ _ E1 Eg). rewrite Hanc by assumption. reflexivity.
+    pose proof (jlook_in _ _ _ _ Eg) as Eg'. destruct (si_refs s I _ _ _ Eg') as [Hgk Hbk]. split.
+    - unfold kf_group. rewrite !jgroup_kgl, Hk, Eg. rewrite Hanc by assumption. reflexivity.
     - unfold kf_bp. rewrite !batch_bp_bkl, !batch_user_bkl, Hb, blook_app.
       destruct (blook (bkl s) b); [reflexivity | contradiction]. }
   split.
@@ -420,7 +427,21 @@ Proof.
       * rewrite Hb, blook_app. destruct (blook (bkl s) b); [discriminate | contradiction].
     + rewrite Hk, Hat; assumption.
     + rewrite Hk, Hr; assumption.
-    + rewrite Hb. exact Hfresh.
+    + intros b u p Hin. rewrite Hb in Hin. apply in_app_or in Hin. destruct Hin as [Hin|Hin].
+      * apply si_fresh0 in Hin. lia.
+      * eapply Hbx; exact Hin.
+    + constructor.
+      * intros b g a x Hin. rewrite Ha in Hin. rewrite Hg. apply in_app_or in Hin. destruct Hin as [Hin|Hin].
+        -- destruct (gi_ref s G _ _ _ _ Hin) as [H1 H2]. split; [apply in_or_app; left; exact H1 | exact H2].
+        -- destruct (Hext _ _ _ _ Hin) as [H1 H2]. split; [apply in_or_app; right; exact H1 | exact H2].
+      * intros b g. rewrite Hsplit. destruct (aids ext b g) as [|a l] eqn:E.
+        -- rewrite app_nil_r. apply (gi_nodup s G).
+        -- assert (Hin : In a (aids ext b g)) by (rewrite E; left; reflexivity).
+           apply in_aids in Hin. destruct Hin as (x & Hx). destruct (Hext _ _ _ _ Hx) as [Hx' _].
+           destruct (Hgx _ _ Hx') as [Hno _]. rewrite (GInv_no_rows s b g G Hno). cbn [app]. rewrite <- E. apply Hnd, Hx'.
+      * intros b g Hin. rewrite Hg in Hin. apply in_app_or in Hin. destruct Hin as [Hin|Hin].
+        -- apply (gi_fresh s G) in Hin. lia.
+        -- apply (Hgx _ _ Hin).
   - destruct A. constructor.
     + apply (AggOK_congr agg_job kf_job s s'); auto. intros; split; [reflexivity | apply billed_of_view, Hat].
     + apply (AggOK_congr agg_group kf_group s s'); auto.
@@ -460,6 +481,7 @@ Proof.
     + intros c Hc. rewrite Hat in Hc. rewrite Hlook; apply si_att0; exact Hc.
     + intros b j a r q Hin. rewrite Hr in Hin. rewrite Hlook; eapply si_res0; exact Hin.
     + rewrite Hb, Hn; assumption.
+    + apply (GInv_view s s'); assumption.
   - destruct A. constructor.
     + apply (AggOK_congr agg_job kf_job s s'); auto. intros; split; [reflexivity | apply billed_of_view, Hat].
     + apply (AggOK_congr agg_group kf_group s s'); auto.
